@@ -43,8 +43,11 @@ def lv(L):
     raise ValueError(L)
 
 
+TR2 = {"name": "TR2", "params": "int &q1, int &q2", "locations": [{"id": "id0"}], "init": "id0", "edges": [{"src": "id0", "dst": "id0", "assign": "q1 = 1, q2 = 1"}]}
+
+
 def mk_placer():
-    return batch.Placer(BASE_DECL, tparams=TPARAMS, extra_templates=[TR], extra_system="P0 = T(1, cg, 1, m);\nsystem P0;")
+    return batch.Placer(BASE_DECL, tparams=TPARAMS, extra_templates=[TR, TR2], extra_system="P0 = T(1, cg, 1, m);\nsystem P0;")
 
 
 def place(n, cs):
@@ -54,6 +57,10 @@ def place(n, cs):
     out = []
     if cs["wf"] == "tmplref":
         return [{"role": "system", "text": "Q%d = TR(%s);" % (n, text), "ctx": "template-ref-arg"}]
+    if cs["wf"] == "tmplref_partial_last":
+        return [{"role": "system", "text": "Q%d(int &y) = TR2(y, %s);" % (n, text), "ctx": "partial-instantiation-last-ref-arg"}]
+    if cs["wf"] == "tmplref_partial_first":
+        return [{"role": "system", "text": "Q%d(int &y) = TR2(%s, y);" % (n, text), "ctx": "partial-instantiation-first-ref-arg"}]
     if cs["lv"][0] == "comma":     # the write is the second operand of a comma expression: `m = 1, <write>`
         w = "%s = 1, %s" % (lv(cs["lv"][1]), OPS[cs["wf"]] % lv(cs["lv"][2]))
     else:
